@@ -32,6 +32,12 @@ CHECKS = {
         note="The predicate is the property's own wording; text is compared modulo trailing whitespace (EOF tokens carry an empty line). TokenError outcomes are outside C11.",
         ref="DESIGN.md §4 C11",
     ),
+    "C14": dict(
+        technique="metamorphic property-based testing: random lists of complete statement sequences (generated Python, corpus, f-strings, every xonsh statement form incl. generated macros); parse(concatenation) must equal the line-shifted concatenation of the parts' own parses, with positions",
+        text="Exploration: the relation between whole and parts is the oracle, so xonsh statements are checkable without a reference parser. Histogram over ordered pairs of statement kinds in the evidence. Held on everything generated.",
+        note="Parts that do not parse alone are discarded (counted). Parts never start with a blank/comment line because the suite documents that such a line after a with-macro block belongs to the macro.",
+        ref="DESIGN.md §4 C14",
+    ),
     "C18": dict(
         technique="property-based testing over size-parameterised input families with deterministic work counters (token reads/peeks/resets of a counting Tokenizer subclass): fixed families from the grammar's recursion structure + Hypothesis-drawn wrapper mixtures, valid and invalid; linear bound and doubling-ratio oracle",
         text="Exploration: each family is instantiated at doubling sizes and must satisfy work <= 3000*tokens+20000 and work(2n)/work(n) <= 2.6; no wall-clock is involved so verdicts are reproducible. Decides linearity only for the families generated. Held except the listed finding D42 (quadratic on rejected nested subprocesses).",
